@@ -131,8 +131,8 @@ public:
 
     void reset()
     {
-        xs.m_dataBuffer.clear();
-        xs.m_streamOpenElement.clear();
+        // what `started` does for a new stream: clears the buffer, the cached open tag AND the UTF-8 decoder state
+        xs.resetIncomingState();
     }
 
     std::string observe()
@@ -380,7 +380,7 @@ struct Runner {
 // ---------------------------------------------------------------- PrefixOracle on the real QDomDocument
 static QString wrapLikeTheCode(const QString &tag, const QString &buf, bool &hasOpen, bool &hasClose, QString &captured)
 {
-    static const QRegularExpression streamStartRegex(QStringLiteral(R"(^(<\?xml.*\?>)?\s*<stream:stream[^>]*>)"));
+    static const QRegularExpression streamStartRegex(QStringLiteral(R"re(^(<\?xml[^>]*\?>)?\s*<stream:stream(?:[^>'"]|'[^']*'|"[^"]*")*>)re"));
     static const QRegularExpression streamEndRegex(QStringLiteral("</stream:stream>$"));
     auto m = streamStartRegex.match(buf);
     hasOpen = m.hasMatch();
@@ -630,6 +630,20 @@ int main(int argc, char **argv)
         };
         special("header-gt-in-attribute-value", "<stream:stream id='a>b' xmlns:stream='http://etherx.jabber.org/streams' xmlns='jabber:client'>");
         special("header-newline-in-xml-declaration", "<?xml version='1.0'\n?><stream:stream xmlns:stream='http://etherx.jabber.org/streams' xmlns='jabber:client'>");
+    }
+
+    // 9. a stream that STARTS with a byte order mark (EF BB BF), and one with U+FEFF as very first character of a later
+    //    stanza: every 2-way split and bytewise.  Reference = its own one-read run; additionally the BOM-prefixed stream
+    //    must behave like the same stream without BOM (a leading BOM is not content: standard XML behaviour).
+    {
+        Stream plain = cs[0];
+        Stream b = plain; b.name = "bom-at-stream-start"; b.bytes = QByteArray("\xef\xbb\xbf") + plain.bytes;
+        R.wholeEvents[b.name] = nonKeepAlive(R.runBytes({ b.bytes }));
+        if (R.wholeEvents[b.name] == R.wholeEvents[plain.name]) { oraclePass()++; stat("leading_bom_ignored", 1); }
+        else oracleFail("C03:leading-bom-changes-events", "one-read with BOM=" + joinEvs(R.wholeEvents[b.name]) + " without=" + joinEvs(R.wholeEvents[plain.name]));
+        for (int k = 1; k < b.bytes.size(); k++) R.runSplit(b, { k }, "bomstart");
+        std::vector<int> cuts; for (int k = 1; k < b.bytes.size(); k++) cuts.push_back(k);
+        R.runSplit(b, cuts, "bomstart");
     }
 
     stat("transport_retries", R.transportRetries);
